@@ -273,6 +273,7 @@ pub fn conclude(root: &str, meta: &Meta, tier: Tier, seed: u64, wall: f64, rep: 
             unknown.push(v);
         }
     }
+    let known_stored = (rep.violations.len() - unknown.len()) as u64;
     let distinct = rep.outcomes.len() as u64;
     let nontrivial = if rep.nontrivial > 0 { rep.nontrivial } else { distinct };
     let mut coverage = json!({
@@ -303,7 +304,8 @@ pub fn conclude(root: &str, meta: &Meta, tier: Tier, seed: u64, wall: f64, rep: 
         "coverage": coverage,
         "assumptions": meta.assumptions,
         "wall_s": wall,
-        "violations": rep.violation_count,
+        "violations": if unknown.is_empty() { 0 } else { rep.violation_count.saturating_sub(known_stored) },
+        "known_findings_met": known_stored,
         "machinery_errors": rep.machinery_errors,
     });
     // a side pass (the dev-profile repetition of the thorough tier) writes its evidence elsewhere; the driver merges it
@@ -318,8 +320,17 @@ pub fn conclude(root: &str, meta: &Meta, tier: Tier, seed: u64, wall: f64, rep: 
     }
     let _ = writeln!(
         out,
-        "{} tier={} evaluations={} distinct_outcomes={} states={} transitions={} capped={} wall={:.1}s violations={}",
-        meta.id, tier.name(), rep.evaluations, distinct, rep.states, rep.transitions, rep.capped, wall, rep.violation_count
+        "{} tier={} evaluations={} distinct_outcomes={} states={} transitions={} capped={} wall={:.1}s violations={}{}",
+        meta.id,
+        tier.name(),
+        rep.evaluations,
+        distinct,
+        rep.states,
+        rep.transitions,
+        rep.capped,
+        wall,
+        if unknown.is_empty() { 0 } else { rep.violation_count.saturating_sub(known_stored) },
+        if known_stored > 0 { format!(" known_findings_met={known_stored}") } else { String::new() }
     );
     if !rep.machinery_errors.is_empty() {
         for m in &rep.machinery_errors {
